@@ -52,9 +52,11 @@ def run_trim(w, out, tier, known):
     ob = {"harness": "e2_trim_witness_validation",
           "clause": "prefix / suffix removal deletes exactly the shortest / longest matching prefix / suffix (validated natively at "
                     "solver-chosen witnesses: NOT a decision over all strings)",
-          "bound": "%d patterns (all sequences of <= %d items over {a, b, ?, *, [ab], [!a], \\*%s}) x 4 trim forms x z3-chosen "
-                   "strings over {a, b, c} of length <= 6 (with >= 2 matching cuts, with a match, without)"
-                   % (r["patterns"], 3 if tier == "quick" else 4, "" if tier == "quick" else ", [a-b], \\?, c"),
+          "bound": "%d patterns (quick: all sequences of <= 2 items over {a, b, ?, *, [ab], [!a], quoted *, e-acute} and of 3 items over "
+                   "{a, ?, *, [ab]}; thorough: <= 3 items over those plus {[a-b], quoted ?, c, .} and 4 items over the core four) x 4 trim "
+                   "forms x z3-chosen strings over {a, b, c, e-acute, .} of length <= 6 (with >= 2 matching cuts, with the pattern matching "
+                   "twice in a row at the trimmed end, with a leading period, with a multi-byte character at the cut, with a match, without)"
+                   % r["patterns"],
           "functions": ["yash_semantics::expansion::initial::param::trim::apply", "yash_fnmatch::Pattern::find",
                         "yash_fnmatch::Pattern::rfind", "yash_syntax::parser (word ${x#pat})"],
           "verdict": "ok", "cases": r["cases"], "cases_with_two_or_more_cuts": r["cases_with_two_or_more_cuts"],
@@ -137,6 +139,10 @@ def run(tier, seed, only=None):
     def body():
         w = core.Workspace("c04")
         out.extra["repo_state"] = w.repo_state
+        if only == ["trim"]:
+            # debugging / seed runs: the trim validation alone
+            run_trim(w, out, tier, known)
+            return
         exe, bdt = build_driver(w)
         res_path = os.path.join(w.root, "e2.json")
         cmd = ["python3-vt", os.path.join(core.VERIF, "e2", "run_e2.py"), "--driver", exe, "--tier", tier, "--out", res_path]
